@@ -13,11 +13,16 @@ import xml.etree.ElementTree as ET
 import numpy as np
 
 from .. import build, core, drv, par
-from ..gen import corpus, model
+from ..gen import corpus, mjcf_cond, model
 from ..mjconst import E
 
 LEVEL = "exploration"
-RULE = ("cases = shipped corpus models (both with and without mj_copyBack before saving) + generated 'rich' models "
+RULE = ("cases = shipped corpus models (both with and without mj_copyBack before saving) + tri-state models (vf/gen/mjcf_cond.py "
+        "gen_tristate: explicit true/false/absent limited, actuatorfrclimited, ctrllimited, forcelimited, actlimited with and without "
+        "the range, agreeing and disagreeing with what the reader would infer, on the element and through nested default classes that "
+        "the element inherits or overrides, autolimits true/false, angle radian/degree) + type-conditional models (gen_typecond: every "
+        "joint/geom/site/camera/light/actuator/transmission/equality/tendon kind with the attributes the writer emits per TYPE, on both "
+        "sides of each condition) + generated 'rich' models "
         "decorated with nested default classes/childclass, named and unnamed <frame>, <replicate>, keyframes sized from "
         "a first compile, custom numeric/text/tuple, contact pairs/excludes, builtin textures/materials, inline-vertex "
         "meshes, hfields with inline elevation, random <option>/<visual>/<statistic>/<compiler> settings + models built "
@@ -568,6 +573,44 @@ def decorate(xml, rng, feats):
                         e.set("class", pick(cls))
         tags.add("defaults_nested")
 
+    # ---- explicit tri-state attributes that contradict (or merely repeat) what the reader infers from the range
+    if feats.get("tristate"):
+        pinned_j = {e.get("joint") for sec in root.iter("sensor") for e in sec if e.tag.startswith("jointlimit")}
+        pinned_t = {e.get("tendon") for sec in root.iter("sensor") for e in sec if e.tag.startswith("tendonlimit")}
+        n = 0
+        for j in wb.iter("joint"):
+            if j.get("type") == "free" or j.get("name") in pinned_j:
+                continue
+            if j.get("limited") == "true" and j.get("range") and P(0.35):
+                j.set("limited", "false")            # range stays: explicit false against an inferred true
+                n += 1
+            elif j.get("limited") is None and P(0.3):
+                j.set("limited", "false")            # repeats the inference unless a default class supplies a range
+                n += 1
+            if j.get("type") in ("hinge", "slide", None) and j.get("actuatorfrcrange") and P(0.4):
+                j.set("actuatorfrclimited", pick(["true", "false"]))
+                n += 1
+        ten = root.find("tendon")
+        for t in (list(ten) if ten is not None else []):
+            if t.get("name") in pinned_t:
+                continue
+            if t.get("limited") == "true" and t.get("range") and P(0.35):
+                t.set("limited", "false")
+                n += 1
+            elif t.get("limited") is None and P(0.3):
+                t.set("limited", "false")
+                n += 1
+        act = root.find("actuator")
+        for a in (list(act) if act is not None else []):
+            for lim, rg in (("ctrllimited", "ctrlrange"), ("forcelimited", "forcerange"), ("actlimited", "actrange")):
+                if a.tag in ("muscle", "adhesion", "damper") and lim == "ctrllimited":
+                    continue             # these shortcuts set ctrllimited themselves
+                if a.get(lim) == "true" and a.get(rg) and P(0.35):
+                    a.set(lim, "false")
+                    n += 1
+        if n:
+            tags.add("tristate_flipped")
+
     # ---- frames (named / unnamed / childclass) and replicate
     if feats.get("frames"):
         interleave = bool(feats.get("frame_interleave"))
@@ -824,6 +867,12 @@ def build_case(L, c):
             if c["feats"].get("default_key"):
                 tags.add("keyframe_all_default")
         return spec, m, "gen:%d" % c["mseed"], tags, xml
+    if c["kind"] in ("tri", "tcond"):
+        rng = np.random.default_rng(c["mseed"])
+        xml, tags, counts = (mjcf_cond.gen_tristate if c["kind"] == "tri" else mjcf_cond.gen_typecond)(rng)
+        c["_gen_counts"] = counts
+        spec = L.parse_xml_string(xml)
+        return spec, L.compile(spec), "%s:%d" % (c["kind"], c["mseed"]), set(tags), xml
     raise ValueError(c["kind"])
 
 
@@ -1519,6 +1568,10 @@ def worker(c):
         P.count("source_model_rejected")
         P.count("rejected:" + re.sub(r"[0-9]+", "N", str(e).splitlines()[0])[:50])
         return P.result()
+    for k, v in c.pop("_gen_counts", {}).items():       # what the tri-state / type-conditional generators emitted (accepted models only)
+        P.count(k, v)
+    if c["kind"] in ("tri", "tcond"):
+        P.count("models_generated:" + c["kind"])
     roundtrip(P, L, c, spec, m1, name, tags, src)
     return P.result()
 
@@ -1621,7 +1674,8 @@ def _cases(ctx):
             cs.append(dict(kind="xml", xml=xml, label=label, tags=[label], path_mode=pm))
         cs.append(dict(kind="xml", xml=xml, label=label, tags=[label], path_mode="spec", digits=8))
     ngen = ctx.pick(260, 2600)
-    keys = ["compiler", "option", "visual", "statistic", "assets", "mesh", "hfield", "user", "defaults", "frames", "replicate", "custom", "keyframes"]
+    keys = ["compiler", "option", "visual", "statistic", "assets", "mesh", "hfield", "user", "defaults", "frames", "replicate", "custom", "keyframes",
+            "tristate"]
     for i in range(ngen):
         feats = {k: bool(rng.random() < 0.6) for k in keys}
         feats["frame_interleave"] = bool(rng.random() < 0.25)
@@ -1632,6 +1686,12 @@ def _cases(ctx):
         if i % 6 == 5:
             c["digits"] = int(rng.integers(6, 13))
         cs.append(c)
+    for kind, n in (("tri", ctx.pick(90, 600)), ("tcond", ctx.pick(60, 400))):
+        for i in range(n):
+            c = dict(kind=kind, mseed=int(rng.integers(0, 2 ** 31)), path_mode=["spec", "copyback"][i % 2])
+            if i % 7 == 6:
+                c["digits"] = int(rng.integers(8, 13))
+            cs.append(c)
     for i in range(ctx.pick(40, 400)):
         c = dict(kind="spec", mseed=int(rng.integers(0, 2 ** 31)), path_mode=["spec", "copyback"][i % 2])
         if i % 5 == 4:
@@ -1664,6 +1724,15 @@ def run(ctx):
         ctx.inconclusive("%d worker crashes/timeouts" % ncrash)
     if ctx.counters.get("source_model_rejected", 0) > len(cs) // 4:
         ctx.inconclusive("too many generated source models rejected by the compiler")
+    for need in ("tristate:joint_ball.limited:explicit_false_DISAGREES_with_range", "tristate:joint_ball.limited:element_OVERRIDES_class_value",
+                 "tristate:joint_hinge.limited:explicit_false_DISAGREES_with_range", "tristate:joint_slide.actuatorfrclimited:element_OVERRIDES_class_value",
+                 "tristate:tendon_fixed.limited:explicit_false_DISAGREES_with_range", "tristate:tendon_spatial.actuatorfrclimited:explicit_false_DISAGREES_with_range",
+                 "tristate:actuator.ctrllimited:element_OVERRIDES_class_value", "tristate:actuator.forcelimited:explicit_false_DISAGREES_with_range",
+                 "tristate:actuator.actlimited:explicit_false_DISAGREES_with_range", "tristate_models:autolimits_false", "tristate_models:autolimits_true",
+                 "tristate_models:angle_degree", "typecond:joint_ball:attributes_irrelevant_for_type", "typecond:camera:focalpixel",
+                 "typecond:geom_box:fromto", "typecond:actuator:gear_len6", "typecond:light:directional"):
+        if not ctx.counters.get(need):
+            ctx.inconclusive("conditional-attribute class never generated: " + need)
     ctx.min_nontrivial = ctx.pick(200, 1500)
 
 
